@@ -56,7 +56,8 @@ def gen_scn(r):
     s = {'overwrite': r.random() < 0.6, 'overwrite_part': r.random() < 0.4,
          'rm_part_on_exc': r.random() < 0.75, 'text_mode': r.random() < 0.4,
          'file_perms': r.choice([None, None, 0o600, 0o644, 0o755, 0o666, 0o777, 0o400, 0, 0o200] + SPECIAL_PERMS),
-         'dest_mode': r.choice([0o664, 0o664, 0o666, 0o600, 0o777]),
+         # the file being replaced: everyday modes, modes with nothing for the owner, set-id / sticky bits (as root)
+         'dest_mode': r.choice([0o664, 0o664, 0o666, 0o600, 0o777, 0o044, 0o004, 0o066, 0o400, 0o007] + SPECIAL_PERMS),
          'umask': r.choice([0, 0o022, 0o077]), 'dest': r.choice(['absent', 'present']),
          'part': r.choice(['absent', 'absent', 'present']), 'writes': body,
          'flush': [i for i in range(len(body)) if r.random() < 0.25]}
@@ -492,6 +493,14 @@ def run(ctx):
     sysm = systematic(ctx.shard, ctx.nshards)
     if ctx.tier == 'quick':
         sysm = sysm[::8]
+    # the body leaves the block through every kind of exception (incl. one whose instances are falsy), before / between /
+    # after its writes, with the destination absent and present: in every tier, not left to the random scenarios
+    for kind in ('body-error', 'falsy-exception', 'KeyboardInterrupt', 'SystemExit', 'GeneratorExit'):
+        for dest in ('absent', 'present'):
+            for at in (0, 1, 2):
+                sysm.append({'overwrite': True, 'overwrite_part': False, 'rm_part_on_exc': True, 'text_mode': False,
+                             'file_perms': None, 'umask': 0o022, 'dest': dest, 'part': 'absent', 'writes': [5, 9],
+                             'flush': [], 'raise_at': at, 'raise_kind': kind})
     st.counters['strace_available'] = int(F.strace_available())
     nA = {'quick': 1, 'thorough': 25}[ctx.tier]
     for i, scn in enumerate(scns + sysm):
